@@ -1916,7 +1916,7 @@ pub fn scen_fault(ctx: &Ctx) -> i32 {
                     let _ = imp.open(0, seq.kt, &seq.params);
                     for o in &seq.ops {
                         imp.exec(o);
-                        match o {
+                        match &o.base().0 {
                             Op::Put(k, v) => {
                                 oracle.insert(k.bytes(), v.bytes());
                             }
